@@ -69,6 +69,20 @@ package kvgraph
 //@   ensures label: DstEdgeKeyParse(DstEdgeKey(g, src, dst, id, label, et)).4 == label
 //@   ensures etype: DstEdgeKeyParse(DstEdgeKey(g, src, dst, id, label, et)).5 == et
 
+// The key layout as spec functions (spec/keys.smt2): used where a contract quantifies
+// over ids; each is the real builder's result.
+//@ lemma keys.layout
+//@   property C16 C03
+//@   option prelude=keys
+//@   option pkg=kvgraph
+//@   option globals=kvgraph
+//@   params g:string id:string src:string dst:string label:string et:byte
+//@   ensures vertex: VertexKey(g, id) == vkeyOf(g, id)
+//@   ensures graph: GraphKey(g) == gkeyOf(g)
+//@   ensures edge: EdgeKey(g, id, src, dst, label, et) == ekeyOf(g, id, src, dst, label, et)
+//@   ensures srcedge: SrcEdgeKey(g, src, dst, id, label, et) == skeyOf(g, src, dst, id, label, et)
+//@   ensures dstedge: DstEdgeKey(g, src, dst, id, label, et) == dkeyOf(g, src, dst, id, label, et)
+
 // ---- C16: prefixes capture exactly the keys of one graph / one element ------------
 
 //@ lemma keys.prefix.vertexlist
@@ -217,3 +231,45 @@ package kvgraph
 //@   ensures removed: result == nil ==> !kvhas(ekey) && !kvhas(sk) && !kvhas(dk)
 //@   ensures frame: result == nil ==> (forall k:Str :: k != ekey && k != sk && k != dk ==> ((kvhas(k) <==> old(kvhas(k))) && kvval(k) == old(kvval(k))))
 //@   ensures touch: result == nil ==> touched(kgdb.graph)
+
+// AddVertex: one bulk write; only the vertex keys of the given ids (and index keys)
+// change; the graph's timestamp is touched exactly when something was stored.
+//@ func (*KVInterfaceGDB).AddVertex
+//@   property C03
+//@   option prelude=keys,kv
+//@   option load=kvindex,kvi,timestamp,gdbi,gripql
+//@   option globals=kvgraph
+//@   modifies KV. TS.
+//@   requires nonnil: kgdb != nil && kgdb.kvg != nil && kgdb.kvg.kv != nil && kgdb.kvg.ts != nil && kgdb.kvg.idx != nil
+//@   requires elems: forall j :: 0 <= j && j < len(vertices) ==> vertices[j] != nil
+//@   loop 101 invariant frame: forall k:Str :: !idxkey(k) && !((kvhas(k) <==> old(kvhas(k))) && kvval(k) == old(kvval(k))) ==>
+//@       (exists j :: 0 <= j && j <= rangeindex && k == vkeyOf(kgdb.graph, vertices[j].ID))
+//@   loop 101 invariant quiet: same(touchedset(), old(touchedset())) && (bulkErr == nil && rangeindex >= 0 ==> changed) && (rangeindex < 0 ==> !changed)
+//@   loop 101 invariant bound: rangeindex < len(vertices)
+//@   ensures frame: forall k:Str :: !idxkey(k) && !((kvhas(k) <==> old(kvhas(k))) && kvval(k) == old(kvval(k))) ==>
+//@       (exists j :: 0 <= j && j < len(vertices) && k == vkeyOf(kgdb.graph, vertices[j].ID))
+//@   ensures touch: result == nil && len(vertices) > 0 ==> touched(kgdb.graph)
+//@   ensures notouch: len(vertices) == 0 ==> same(touchedset(), old(touchedset()))
+//@   ensures onlythis: forall g:Str :: g != kgdb.graph ==> (touched(g) <==> old(touched(g)))
+
+//@ func (*KVInterfaceGDB).AddEdge
+//@   property C03
+//@   option prelude=keys,kv
+//@   option load=kvindex,kvi,timestamp,gdbi,gripql
+//@   option globals=kvgraph
+//@   modifies KV. TS.
+//@   requires nonnil: kgdb != nil && kgdb.kvg != nil && kgdb.kvg.kv != nil && kgdb.kvg.ts != nil && kgdb.kvg.idx != nil
+//@   requires elems: forall j :: 0 <= j && j < len(edges) ==> edges[j] != nil
+//@   loop 101 invariant frame: forall k:Str :: !idxkey(k) && !((kvhas(k) <==> old(kvhas(k))) && kvval(k) == old(kvval(k))) ==>
+//@       (exists j :: 0 <= j && j <= rangeindex && (k == ekeyOf(kgdb.graph, edges[j].ID, edges[j].From, edges[j].To, edges[j].Label, 1) ||
+//@          k == skeyOf(kgdb.graph, edges[j].From, edges[j].To, edges[j].ID, edges[j].Label, 1) ||
+//@          k == dkeyOf(kgdb.graph, edges[j].From, edges[j].To, edges[j].ID, edges[j].Label, 1)))
+//@   loop 101 invariant quiet: same(touchedset(), old(touchedset())) && (bulkErr == nil && rangeindex >= 0 ==> changed) && (rangeindex < 0 ==> !changed)
+//@   loop 101 invariant bound: rangeindex < len(edges)
+//@   ensures frame: forall k:Str :: !idxkey(k) && !((kvhas(k) <==> old(kvhas(k))) && kvval(k) == old(kvval(k))) ==>
+//@       (exists j :: 0 <= j && j < len(edges) && (k == ekeyOf(kgdb.graph, edges[j].ID, edges[j].From, edges[j].To, edges[j].Label, 1) ||
+//@          k == skeyOf(kgdb.graph, edges[j].From, edges[j].To, edges[j].ID, edges[j].Label, 1) ||
+//@          k == dkeyOf(kgdb.graph, edges[j].From, edges[j].To, edges[j].ID, edges[j].Label, 1)))
+//@   ensures touch: result == nil && len(edges) > 0 ==> touched(kgdb.graph)
+//@   ensures notouch: len(edges) == 0 ==> same(touchedset(), old(touchedset()))
+//@   ensures onlythis: forall g:Str :: g != kgdb.graph ==> (touched(g) <==> old(touched(g)))
